@@ -1,6 +1,7 @@
 """C15 (worker side, needs greenlet / greenback / trio: the 3.12 venv only): greenlet stacks in every
 lifecycle state seen from every vantage point, and greenback sync/async bridges.
 """
+import collections.abc
 import sys
 import threading
 import warnings
@@ -85,7 +86,7 @@ def observe_from_inside(w, me):
                 check_target(w, k, "descendant" if me - k > 1 else "child")
         if "sib" in w.glets:
             check_target(w, "sib", "unrelated")
-        for key in ("unstarted", "dead"):
+        for key in ("unstarted", "dead", "frameless"):
             if key in w.glets:
                 check_target(w, key, "inside:" + key)
     obs()
@@ -145,6 +146,12 @@ def run_chain(req):
         s.switch()
     w.glets["unstarted"] = GL(lambda: None)
     w.shadow["unstarted"] = []
+    # started and suspended, but without a single Python frame of its own: its run callable is implemented in C (here
+    # the bound switch of the main greenlet - a relay)
+    fl = GL(w.main.switch)
+    fl.switch()
+    w.glets["frameless"] = fl
+    w.shadow["frameless"] = []
     d = GL(lambda: 1)
     d.switch()
     w.glets["dead"] = d
@@ -159,6 +166,7 @@ def run_chain(req):
         check_target(w, "sib", "main")
     check_target(w, "unstarted", "main")
     check_target(w, "dead", "main")
+    check_target(w, "frameless", "main")
     # the main greenlet itself, from itself: its own portion of the running stack = the whole thread stack here
     here = sys._getframe()
     st = extract(w.main, with_contexts=False)
@@ -166,7 +174,7 @@ def run_chain(req):
     if not got or got[-1] is not here or st.error is not None:
         w.obs.append({"kind": "main_greenlet_current", "n": len(got), "error": repr(st.error)})
     # teardown: kill the suspended greenlets, innermost first
-    for key in sorted([k for k in w.glets if isinstance(k, int)], reverse=True) + ["sib"]:
+    for key in sorted([k for k in w.glets if isinstance(k, int)], reverse=True) + ["sib", "frameless"]:
         g = w.glets.get(key)
         if g is not None and g:
             try:
@@ -412,6 +420,11 @@ def run_greenback(req):
                     await fn()
                 elif portal == "run":
                     await greenback.with_portal_run(fn)
+                elif portal in ("run_wrapped_falsy", "run_wrapped_truthy"):
+                    # what the portal drives is a coroutine-like OBJECT (collections.abc.Coroutine) around the coroutine -
+                    # one of them empty as a container, hence falsy
+                    state["wrapper"] = CoroLike(fn(), portal.endswith("falsy"))
+                    await greenback.with_portal_run(lambda: state["wrapper"])
                 else:       # the chain starts with a synchronous function run in a portal of its own
                     await greenback.with_portal_run_sync(make_sync(0))
             n.start_soon(runner)
@@ -433,6 +446,19 @@ def run_greenback(req):
 
     trio.run(main)
     obs = []
+    if "wrapper" in state:
+        # an opaque coroutine-like object: the stack ends with it as the leaf, whatever its truth value
+        st = out["outside"]
+        if st.error is not None:
+            obs.append({"kind": "error", "tag": "outside", "exc": repr(st.error)})
+        if st.leaf is not state["wrapper"]:
+            obs.append({"kind": "leaf_is_not_the_coroutine_like_object", "leaf": repr(st.leaf)[:80]})
+        for f in st.frames:
+            if f.funcname in ("trampoline", "_greenback_shim") and (f.modname or "").startswith("greenback") and not f.hide:
+                obs.append({"kind": "bridging_internal_not_hidden", "tag": "outside", "frame": f.funcname})
+        if out["warnings"]:
+            obs.append({"kind": "warnings", "msgs": out["warnings"]})
+        return {"obs": obs[:6], "stats": {"observations": 1, "glets": 0, "from_descendant": 0, "depth": depth}}
     views = [("outside", out["outside"], out["levels"]), ("inside", state["inside"], state["inside_levels"])]
     for tag, st, lv in views:
         if st.error is not None:
@@ -473,6 +499,26 @@ def _bridging_hidden(st, tag):
                             "module": f.modname, "all": [[x.funcname, x.hide] for x in st.frames]})
                 break
     return out
+
+
+class CoroLike(collections.abc.Coroutine):
+    def __init__(self, co, falsy):
+        self.co, self.falsy = co, falsy
+
+    def send(self, v):
+        return self.co.send(v)
+
+    def throw(self, *a):
+        return self.co.throw(*a)
+
+    def close(self):
+        return self.co.close()
+
+    def __await__(self):
+        return self.co.__await__()
+
+    def __len__(self):
+        return 0 if self.falsy else 1
 
 
 def run_greenback_asyncio(req):
